@@ -100,7 +100,40 @@ def main():
         if os.path.exists(path):
             os.remove(path)
         miss[mode] = r
-    json.dump({"cases": out, "missing": miss}, sys.stdout)
+    # existing files that are not NIX files at all: zero bytes, text, a plain HDF5 file
+    foreign = []
+    for kind in ("empty", "text", "hdf5"):
+        for mode in ("r", "a", "w"):
+            path = os.path.join(wd, "foreign_%s_%s.nix" % (kind, mode))
+            if kind == "empty":
+                open(path, "wb").close()
+            elif kind == "text":
+                with open(path, "wb") as fh:
+                    fh.write(b"not an HDF5 file\n" * 40)
+            else:
+                with h5py.File(path, "w") as h:
+                    h.create_group("data")
+            before = sha(path)
+            r = {"kind": kind, "mode": mode, "size_before": os.path.getsize(path)}
+            try:
+                nf = nixio.File.open(path, mode)
+                r["outcome"] = "opened"
+                r["session_mode"] = nf.mode
+                try:
+                    nf.create_block("b", "t")
+                    r["write_accepted"] = True
+                except Exception:
+                    r["write_accepted"] = False
+                r["version"] = [int(x) for x in nf.version]
+                nf.close()
+            except Exception as exc:
+                r["outcome"] = "refused:" + type(exc).__name__
+            gc.collect()
+            r["unchanged"] = os.path.exists(path) and sha(path) == before
+            if os.path.exists(path):
+                os.remove(path)
+            foreign.append(r)
+    json.dump({"cases": out, "missing": miss, "foreign": foreign}, sys.stdout)
 
 
 main()
